@@ -29,7 +29,7 @@ func genC10(r *core.Rand, run int) *MuxScenario {
 	sc.Knobs.UnaryInt = r.Chance(1, 2) // the interceptors are scheduling points around the forwarders
 	sc.Knobs.StreamInt = r.Chance(1, 2)
 	sc.Local = []string{"larking.testpb.ChatRoom"} // TestService is only served by the backend
-	sc.Backends = []BackendSpec{{Tag: "b1", Services: []string{tsvc}}}
+	sc.Backends = []BackendSpec{{Tag: "b1", Services: []string{tsvc}, Verbose: run%2 == 1}}
 	k := 1
 	if r.Chance(1, 3) {
 		k = 2 + r.Intn(2)
@@ -163,6 +163,18 @@ func genProxiedRequest(r *core.Rand, id, limit int) ReqSpec {
 		sp.Fault.Kind = "abort"
 	case f < 3:
 		sp.Fault.Kind = "bkill"
+	case f < 5 && mi.ClientS && !sp.LateClose:
+		// the client's stream breaks inside a message (clean EOF or transport
+		// error, context still live): the backend must not take it for a
+		// complete stream
+		sp.Fault.Kind = r.PickS("cut", "readerr")
+	}
+	// a second and third binary key
+	if r.Chance(1, 3) {
+		sp.MD = append(sp.MD, [2]string{"X-Second-Bin", base64.RawStdEncoding.EncodeToString(patternBytes(r.U64(), 1+r.Intn(20)))})
+		if r.Chance(1, 2) {
+			sp.MD = append(sp.MD, [2]string{"X-Third-Bin", base64.RawStdEncoding.EncodeToString(patternBytes(r.U64(), 1+r.Intn(5)))})
+		}
 	}
 	return sp
 }
